@@ -173,7 +173,7 @@ class C24(core.Check):
     quick_n = 500
     thorough_n = 9000
     rule = ("kind subery runs histories over ONE Subery with its own subers cans/drqs/dsqs and the same keys in all of them (sub-database isolation clause); "
-            "keys and values are handed over in every accepted form (bytes / str / memoryview / tuple of parts), returned lists are mutated by the caller, writes with a non-bytes value at any "
+            "keys and values are handed over in every accepted argument form, chosen by op index (keys: bytes, str, bytearray, memoryview of the whole buffer / of a slice of a larger bytes frame / of a slice of a bytearray, tuple of str parts, list of mixed str|bytes parts, tuple of bytes parts; values: str, bytes, the three memoryview forms), returned lists are mutated by the caller, writes with a non-bytes value at any "
             "batch position are interleaved, kinds <class>@<n> use a custom sep / ionsep from st.SEPCFG (ASCII, non-ASCII 2-4 byte, multi-char, str and bytes; oracle only), a sentinel sub-db in the same environment must stay untouched; "
             "case = (kind in plain|io|ioset, op list <= 30 over an adversarial key set of <= 4 keys (prefixes of each other, keys ending in or containing '.', "
             "keys that look like a suffixed key k.<32 hex>, the empty key, neighbours '-' '/' '0' of the separator) and 8 values with duplicates and the empty value); "
